@@ -51,7 +51,7 @@ POOLSIM_ESSENTIAL = {
     "C05": ["C05.hostile-case", "C05.malformed-handled", "C05.before-config"],
     "C06": ["C06.lock-free-after-op", "C06.hard-state", "C09.rr-wait", "C08.place-saturated", "C06.waiter-parked"],
     "C07": ["C07.rule", "C07.rule-refresh", "C07.swap", "C07.window-boundary", "C07.window-doubled",
-            "C07.started-before-last-response", "C07.disabled", "C07.extreme-window", "C07.saturated-window"],
+            "C07.started-before-last-response", "C07.disabled", "C07.extreme-window", "C07.saturated-window", "C07.timeout-while-old-connection-gone"],
     "C08": ["C08.fallback", "C08.place", "C08.sticky", "C08.place-saturated"],
     "C09": ["C09.successor", "C09.rr-wait", "C09.waiter-released", "C09.ctx-end", "C09.cursor-near-2^31", "C09.big-pool"],
     "C20": ["C20.addr", "C20.replacement-addr", "C20.new-addr", "C20.resolver-error", "C20.resolver-error-before-first-update"],
@@ -89,7 +89,7 @@ ME_ESSENTIAL = {
     "C13": ["C13.membership", "C13.unavail-current", "C13.none-available-unchanged", "C13.removed-first", "C13.exact",
             "C13.empty-rejected", "C13.current-removed", "C13.unknown-endpoint-report", "C13.duplicate-list"],
     "C14": ["C14.recovering-stays", "C14.no-switch-in-call", "C14.no-downgrade", "C14.convergence", "C14.timer-fired",
-            "C14.simultaneous-timers", "C14.late-callback", "C14.avail-in-window", "C14.repeat-unavail-in-window"],
+            "C14.simultaneous-timers", "C14.late-callback", "C14.avail-in-window", "C14.repeat-unavail-in-window", "C14.sub-millisecond-config"],
 }
 ME_ASSUME = ["time is virtual through the package's own timeNow/timeAfterFunc variables; one goroutine; timer callbacks run as separate steps (simultaneous ones in seeded-shuffled order, optionally late)",
              "endpoint lists with a repeated entry are generated too, but after such a list was accepted only membership and totality are judged (the statements do not say which occurrence gives the priority)",
@@ -149,7 +149,7 @@ PROPS["C12"] = dict(level="exploration",
                  "blocking is decided from goroutine states (sync.Cond.Wait / sync.Mutex.Lock) sampled by the harness"],
     stages=[dict(name="stream", engine="stream", test="TestVerifStream", batches=dict(quick=8, thorough=16),
                  essential={"C12": ["C12.not-created-at-construction", "C12.creation-gated", "C12.recv-before-send", "C12.recv-waits-during-creation", "C12.recv-released",
-                                    "C12.first-message-visible", "C12.retry-message-visible", "C12.failed-creation-returns-typed-nil", "C12.late-send-after-cancel-reaches-stream", "C12.sends-in-order", "C12.recv-delegated", "C12.recv-gets-creation-error", "C12.late-recv-reaches-stream",
+                                    "C12.first-message-visible", "C12.retry-message-visible", "C12.failed-creation-returns-typed-nil", "C12.late-send-after-cancel-reaches-stream", "C12.after-end-of-stream", "C12.sends-in-order", "C12.recv-delegated", "C12.recv-gets-creation-error", "C12.late-recv-reaches-stream",
                                     "C12.recv-returns-on-context-end", "C12.bystander:before-send", "C12.bystander-delegates", "C12.unary-transparent", "C12.unary-nested-context", "C12.recv-released-while-send-blocks", "C12.late-recv-after-cancel-reaches-stream", "C12.first-send-error-no-second-stream"]},
                  timeout=dict(quick=900, thorough=7200))])
 
